@@ -798,9 +798,17 @@ MUTANTS = [
          old="        if first {\n            // serialize the full value",
          new="        if !first {\n            // serialize the full value",
          expect="C15.c/encode/first-occurrence-decision"),
-    dict(id="C12.d-derive-enum-encodes-skipped-field", prop="C12", file="crates/serialize_derive/src/lib.rs",
-         old="                        field_names.iter().filter(|(_, skip)| !skip).map(",
-         new="                        field_names.iter().filter(|(_, _skip)| true).map(",
+    dict(id="C12.d-derive-enum-decodes-skipped-field", prop="C12", file="crates/serialize_derive/src/lib.rs",
+         old="""                    let field_decodes = fields.named.iter().map(|field| {
+                        let field_name = &field.ident;
+                        let field_type = &field.ty;
+
+                        if should_skip(field) {""",
+         new="""                    let field_decodes = fields.named.iter().map(|field| {
+                        let field_name = &field.ident;
+                        let field_type = &field.ty;
+
+                        if false && should_skip(field) {""",
          expect="C12.a/derive-fixtures/shape/test::EnumWithSkip"),
     dict(id="C12.e-range-start-end-swapped", prop="C12", file="crates/serialize/src/decode.rs",
          old="        let end = T::decode(decoder, plugin, session)?;\n        Ok(start..end)",
@@ -857,6 +865,34 @@ MUTANTS = [
          old="                    current_batch.flush(db, after_commit_sender, shutting_down);\n                }\n            } else {",
          new="                    current_batch.flush(db, after_commit_sender, shutting_down);\n                    break;\n                }\n            } else {",
          expect="C10.a/process_pending_commits/drains-until-nothing-is-ready"),
+    dict(id="C14.f-name-hash-skips-last-byte-of-each-block", prop="C14", file="crates/stable_type_id/src/lib.rs",
+         old="            | ((bytes[start + 7] as u64) << 56)", new="",
+         expect="C14.f/witness/every-name-byte-and-the-length-reach-the-id"),
+    dict(id="C14.f-combine-symmetric", prop="C14", file="crates/stable_type_id/src/lib.rs",
+         old="        let mut v0 = self.0 ^ 0x736f_6d65_7073_6575;",
+         new="        let (a, b) = if self.as_u128() <= other.as_u128() { (self, other) } else { (other, self) };\n        let mut v0 = a.0 ^ 0x736f_6d65_7073_6575;",
+         edits_extra=[("        let mut v1 = self.1 ^ 0x646f_7261_6e64_6f6d;", "        let mut v1 = a.1 ^ 0x646f_7261_6e64_6f6d;"),
+                      ("        let mut v2 = other.0 ^ 0x6c79_6765_6e65_7261;", "        let mut v2 = b.0 ^ 0x6c79_6765_6e65_7261;"),
+                      ("        let mut v3 = other.1 ^ 0x7465_6462_7974_6573;", "        let mut v3 = b.1 ^ 0x7465_6462_7974_6573;")],
+         expect="C14.f/witness/"),
+    dict(id="C13.c-vecdeque-hashes-its-back-half-as-a-slice", prop="C13", file="crates/stable_hash/src/lib.rs",
+         old="""impl<T: StableHash> StableHash for std::collections::VecDeque<T> {
+    fn stable_hash<H: StableHasher + ?Sized>(&self, state: &mut H) {
+        state.write_length_prefix(self.len());
+        for item in self {
+            item.stable_hash(state);
+        }""",
+         new="""impl<T: StableHash> StableHash for std::collections::VecDeque<T> {
+    fn stable_hash<H: StableHasher + ?Sized>(&self, state: &mut H) {
+        state.write_length_prefix(self.len());
+        let (front, back) = self.as_slices();
+        for item in front {
+            item.stable_hash(state);
+        }
+        if !back.is_empty() {
+            back.stable_hash(state);
+        }""",
+         expect="C13.c/layout-observers-only-iterated"),
     # ------------------------------------------------------------------ C09.f (D5)
     dict(id="C09.f-D5-fold-heap-in-arbitrary-order", prop="C09", file=ST + "key_of_set_map/cache.rs",
          old="""        let mut ordered = log.iter().collect::<Vec<_>>();
